@@ -39,36 +39,36 @@ def FullNormalizeCanonicalize (puny : Str → Str) : Prop :=
 canonical URL).  Unquoted mode; `strip_protocol`, `strip_authentication`,
 `strip_trailing_slash` on (the defaults), every other documented option free; whatever scheme
 canonicalisation assumed for a scheme-less input. -/
-theorem normalize_factors_of_pathHyp (puny : Str → Str) (hp : PunyLaws puny) (hPH : PathHyp)
+theorem normalize_factors (puny : Str → Str) (hp : PunyLaws puny)
     (o : Opts) (hsp : o.stripProtocol = true) (hsa : o.stripAuthentication = true)
     (hsts : o.stripTrailingSlash = true) (hq : o.quoted = false) (hlc : o.lowercase = false)
     (p : Parsed) (hAbs : absP p.path = true) (s0 : Str) (b b' : Bool) :
     normParts puny o b p =
       normParts puny o b' (reparse (canonComps puny false false { p with scheme := s0 })) :=
-  (normParts_reparse_canon puny hp hPH o hsp hsa hsts hq hlc p _ hAbs s0 (reparses_reparse _) b b').symm
+  (normParts_reparse_canon puny hp pathHyp o hsp hsa hsts hq hlc p _ hAbs s0 (reparses_reparse _) b b').symm
 
 /-- **(c1)** `normalize_url(canonicalize_url(u)) == normalize_url(u)`, on components: what
 `normalize_url` computes from ANY re-parse `p'` of the canonical components of `p` is what it
 computes from `p`.  (`_partial`: unquoted mode, a path that is empty or starts with `/` — every
 URL with an authority —; `platform_aware` and the redirect step act on
 the string before parsing and are outside this statement.) -/
-theorem normalize_canonicalize_partial_of_pathHyp (puny : Str → Str) (hp : PunyLaws puny)
-    (hPH : PathHyp) (o : Opts) (hsp : o.stripProtocol = true) (hsa : o.stripAuthentication = true)
+theorem normalize_canonicalize_partial (puny : Str → Str) (hp : PunyLaws puny)
+    (o : Opts) (hsp : o.stripProtocol = true) (hsa : o.stripAuthentication = true)
     (hsts : o.stripTrailingSlash = true) (hq : o.quoted = false) (hlc : o.lowercase = false)
     (p p' : Parsed) (hAbs : absP p.path = true) (s0 : Str)
     (hR : Reparses (canonComps puny false false { p with scheme := s0 }) p') (b b' : Bool) :
     normParts puny o b' p' = normParts puny o b p :=
-  normParts_reparse_canon puny hp hPH o hsp hsa hsts hq hlc p p' hAbs s0 hR b b'
+  normParts_reparse_canon puny hp pathHyp o hsp hsa hsts hq hlc p p' hAbs s0 hR b b'
 
 /-- **(a)** two parsed URLs with the same canonical components have the same normalized form -/
-theorem normalize_of_canon_eq_partial_of_pathHyp (puny : Str → Str) (hp : PunyLaws puny)
-    (hPH : PathHyp) (o : Opts) (hsp : o.stripProtocol = true) (hsa : o.stripAuthentication = true)
+theorem normalize_of_canon_eq_partial (puny : Str → Str) (hp : PunyLaws puny)
+    (o : Opts) (hsp : o.stripProtocol = true) (hsa : o.stripAuthentication = true)
     (hsts : o.stripTrailingSlash = true) (hq : o.quoted = false) (hlc : o.lowercase = false)
     (p₁ p₂ : Parsed) (hAbs₁ : absP p₁.path = true) (hAbs₂ : absP p₂.path = true)
     (hc : canonComps puny false false p₁ = canonComps puny false false p₂) (b₁ b₂ : Bool) :
     normParts puny o b₁ p₁ = normParts puny o b₂ p₂ := by
-  have h1 := normalize_factors_of_pathHyp puny hp hPH o hsp hsa hsts hq hlc p₁ hAbs₁ p₁.scheme b₁ true
-  have h2 := normalize_factors_of_pathHyp puny hp hPH o hsp hsa hsts hq hlc p₂ hAbs₂ p₂.scheme b₂ true
+  have h1 := normalize_factors puny hp o hsp hsa hsts hq hlc p₁ hAbs₁ p₁.scheme b₁ true
+  have h2 := normalize_factors puny hp o hsp hsa hsts hq hlc p₂ hAbs₂ p₂.scheme b₂ true
   rw [h1, h2]
   have e1 : ({ p₁ with scheme := p₁.scheme } : Parsed) = p₁ := rfl
   have e2 : ({ p₂ with scheme := p₂.scheme } : Parsed) = p₂ := rfl
@@ -82,6 +82,14 @@ theorem normalize_port_scheme_blind (s0 : Str) (port : Option Nat) :
       | some n => if defaultPort s0 = some n then none else some n
       | none => none) = normPort port :=
   normPort_canon s0 port
+
+/-- path clause: the path `canonicalize_url` prints resolves, in `normalize_url`, to what the
+input path resolves to (`PathHyp`, discharged from the `normpath` lemmas of C01/C02) — and with
+`strip_trailing_slash` the path of the result depends on nothing else -/
+theorem normalize_path_factors (o : Opts) (hsts : o.stripTrailingSlash = true) (hq : o.quoted = false)
+    (hlc : o.lowercase = false) (path : Str) (hAbs : absP path = true) (hm : Bool) (f q f' q' : Str) :
+    normPath o (unquotePath (canonPath path hm)) f' q' = normPath o path f q :=
+  normPath_canon pathHyp o hsts hq hlc path hAbs hm f q f' q'
 
 /-- host clause: `normalize_url`'s hostname is a function of the canonical hostname -/
 theorem normalize_host_factors (puny : Str → Str) (hp : PunyLaws puny) (o : Opts) (h : Str) :
@@ -157,19 +165,19 @@ def FullFingerprintOfNormalizeEq : Prop :=
 
 /-- **(b)** two parsed URLs with the same normalized form have the same fingerprint — PARTIAL:
 for inputs on which lower-casing has nothing to do (`LowerInput`: the URL as parsed, and what
-its escapes decode to, are lower-case).  Under `SortHyp` (the query sort depends only on the
-multiset of items).  Outside that class the statement is FALSE (next example) or explored by
+its escapes decode to, are lower-case).  (The query sort depends only on the multiset of items:
+`SortHyp`, discharged by C04's `sortQsl_eq_of_perm`.)  Outside that class the statement is FALSE (next example) or explored by
 the oracle only. -/
-theorem fingerprint_of_normalize_eq_partial_of_sortHyp (hS : SortHyp) (E : Env) (ss : Bool)
+theorem fingerprint_of_normalize_eq_partial (E : Env) (ss : Bool)
     (p q : Parsed) (hLp : LowerInput p) (hLq : LowerInput q) (b₁ b₂ b₃ b₄ : Bool)
     (h : normParts E.puny {} b₁ p = normParts E.puny {} b₂ q) :
     fpParts E ss (normParts E.puny fpOpts b₃ (lowerParsed p)) =
       fpParts E ss (normParts E.puny fpOpts b₄ (lowerParsed q)) :=
-  fp_of_norm_eq_lower hS E ss p q hLp hLq b₁ b₂ b₃ b₄ h
+  fp_of_norm_eq_lower sortHyp E ss p q hLp hLq b₁ b₂ b₃ b₄ h
 
 /-- on a lower-case input the inner call of `fingerprint_url` is `normalize_url`'s result with
 the query passed through the `gl` / `hl` filter: same netloc, path, fragment -/
-theorem fingerprint_inner_call_of_sortHyp (hS : SortHyp) (puny : Str → Str) (p : Parsed)
+theorem fingerprint_inner_call (puny : Str → Str) (p : Parsed)
     (hL : LowerInput p) (b b' : Bool) :
     (normParts puny fpOpts b' (lowerParsed p)).netloc = (normParts puny {} b p).netloc ∧
     (normParts puny fpOpts b' (lowerParsed p)).path = (normParts puny {} b p).path ∧
@@ -177,19 +185,19 @@ theorem fingerprint_inner_call_of_sortHyp (hS : SortHyp) (puny : Str → Str) (p
     ∃ Q, (normParts puny {} b p).query = safeSerializeQsl Q ∧
       (normParts puny fpOpts b' (lowerParsed p)).query = safeSerializeQsl (fpItems true Q) := by
   obtain ⟨h1, h2, h3, Q, h4, _, h5⟩ :=
-    normParts_fp_of_lower hS puny {} rfl rfl rfl rfl rfl rfl rfl rfl p hL b b'
+    normParts_fp_of_lower sortHyp puny {} rfl rfl rfl rfl rfl rfl rfl rfl p hL b b'
   exact ⟨h1, h2, h3, Q, h4, h5⟩
 
 /-- **(c2)** `fingerprint_url(canonicalize_url(u)) == fingerprint_url(u)`, on components —
 PARTIAL: `p` and the re-parse `p'` of its canonical components both in the lower-case class -/
-theorem fingerprint_canonicalize_partial_of_hyps (hS : SortHyp) (hPH : PathHyp) (E : Env)
+theorem fingerprint_canonicalize_partial (E : Env)
     (hp : PunyLaws E.puny) (ss : Bool) (p p' : Parsed) (hAbs : absP p.path = true) (s0 : Str)
     (hR : Reparses (canonComps E.puny false false { p with scheme := s0 }) p')
     (hLp : LowerInput p) (hLp' : LowerInput p') (b b' : Bool) :
     fpParts E ss (normParts E.puny fpOpts b' (lowerParsed p')) =
       fpParts E ss (normParts E.puny fpOpts b (lowerParsed p)) :=
-  fp_of_norm_eq_lower hS E ss p' p hLp' hLp true true b' b
-    (normParts_reparse_canon E.puny hp hPH {} rfl rfl rfl rfl rfl p p' hAbs s0 hR true true)
+  fp_of_norm_eq_lower sortHyp E ss p' p hLp' hLp true true b' b
+    (normParts_reparse_canon E.puny hp pathHyp {} rfl rfl rfl rfl rfl p p' hAbs s0 hR true true)
 
 /-! ### the excluded region of (b) really fails (replayed on the implementation: KF-C03-6)
 
